@@ -30,7 +30,8 @@ package core
 //	                               the model's oracles for behaviour the real code computes itself)
 //
 // A decoded value that starts with "@/" names a file in this case's scratch directory (created under os.MkdirTemp,
-// outside /repo and /verif, removed afterwards).
+// outside /repo and /verif, removed afterwards).  "@/shipped-<name>" is a copy of config/<name> of the tree under test
+// (directory in $VERIF_REPO_CONFIG, else found relative to this package); "@/helpers.tmpl" calls every documented helper.
 
 import (
 	"bufio"
@@ -45,6 +46,7 @@ import (
 	"math/big"
 	"os"
 	"path/filepath"
+	"runtime"
 	"sort"
 	"strconv"
 	"strings"
@@ -107,6 +109,28 @@ func vcfgMakeKeypair() vcfgKeypair {
 const vcfgGoodTemplate = `{"group":"{{.Group}}","cluster":"{{.Cluster}}","id":"{{.ID}}"}` + "\n"
 const vcfgBadTemplate = `{"group":"{{.Group ` + "\n"
 
+// every function of the documented template helper set (notifier/helpers.go helperFunctionMap; Burrow wiki "Templates")
+const vcfgHelpersTemplate = `{{jsonencoder .}} {{topicsbystatus .Result}} {{partitioncounts .Result.Partitions}} ` +
+	`{{add 1 2}} {{minus 3 1}} {{multiply 2 3}} {{divide 6 2}} {{maxlag .Result}} {{formattimestamp 0 "15:04:05"}}` + "\n"
+
+// vcfgShipped returns the content of config/<name> of the tree the probe was built from.
+func vcfgShipped(name string) []byte {
+	dirs := []string{}
+	if d := os.Getenv("VERIF_REPO_CONFIG"); d != "" {
+		dirs = append(dirs, d)
+	}
+	if _, file, _, ok := runtime.Caller(0); ok {
+		dirs = append(dirs, filepath.Join(filepath.Dir(file), "..", "config"))
+	}
+	dirs = append(dirs, "/repo/config")
+	for _, d := range dirs {
+		if b, err := os.ReadFile(filepath.Join(d, name)); err == nil {
+			return b
+		}
+	}
+	panic("shipped template " + name + " not found in " + strings.Join(dirs, ", "))
+}
+
 // vcfgMaterialise creates the files the facts call for.  Content by role: a file that is the certificate (resp. key)
 // of a pair fact with value 1 gets the generated certificate (key); *.tmpl files get a template that parses unless a
 // tmpl fact says 0; every other readable file gets the certificate (so that it is also a usable CA bundle).
@@ -141,6 +165,10 @@ func vcfgMaterialise(dir string, toks []string, kp vcfgKeypair) {
 		}
 		var content []byte
 		switch {
+		case strings.HasPrefix(name, "@/shipped-"):
+			content = vcfgShipped(strings.TrimPrefix(name, "@/shipped-"))
+		case name == "@/helpers.tmpl":
+			content = []byte(vcfgHelpersTemplate)
 		case strings.HasSuffix(name, ".tmpl"):
 			if tmplBad[name] {
 				content = []byte(vcfgBadTemplate)
